@@ -3,6 +3,7 @@ from symx.api import H
 from spec import enc
 from spec import elf_layout as L
 from spec import registry as REG
+from harness.c03 import hash_word_size
 from harness.elfkit import Image, machines_of_interest
 
 PROPERTY = 'C09'
@@ -53,7 +54,8 @@ def _template(ctx, cfg):
     hashoff = None
     gnuoff = None
     if cfg['hash'] in ('sysv', 'both'):
-        hashoff = img.blob(w(1) + w(k) + w(2) + w(0) + w(0) + w(1), align=8)          # bucket0 -> 2 -> 1 -> 0
+        hw = lambda v: enc.enc_int(v, hash_word_size(cfg.get('machine', 'EM_X86_64'), cls), little)       # 64-bit words on 64-bit Alpha / s390x
+        hashoff = img.blob(hw(1) + hw(k) + hw(2) + hw(0) + hw(0) + hw(1), align=8)          # bucket0 -> 2 -> 1 -> 0
     if cfg['hash'] in ('gnu', 'both'):
         # symoffset 1, one bucket, bloom all ones, chains: hashes with the end bit on the last
         gnuoff = img.blob(w(1) + w(1) + w(1) + w(0) + [0xff] * (cls // 8) + w(1) + w(0x1234 & ~1) + w(0x5678 | 1), align=8)
@@ -266,7 +268,7 @@ def _instances(tier):
                     out.append(dict(elfclass=cls, little=little, variant=variant, hash=hsh, rela=(cls == 64), rpath=(hsh == 'sysv'), symstr=symstr))
         # every machine the library's code mentions (it may lay out hash tables, dynamic entries or symbols specially there), both
         # classes and byte orders spread over the list
-        for i, m in enumerate(machines_of_interest()):
+        for i, m in enumerate(sorted(set(machines_of_interest()) | {'EM_ALPHA', 'EM_S390'})):
             if REG.values(m):
                 for hsh in ('sysv', 'gnu'):
                     out.append(dict(elfclass=cls, little=(little if i % 2 else not little), variant='stripped', hash=hsh, rela=(cls == 64), rpath=True, symstr=0, machine=m))
